@@ -1,17 +1,17 @@
 SPECIFICATION Spec
-CONSTANTS Kinds = {"plain"}
-          MixedServerSet = {}
+CONSTANTS Kinds = {"plain", "mixed", "enc", "root"}
+          MixedServerSet = {"none", "rel"}
           MixedCoreServers = {}
           MixedMethKeys = {"G", "P", "GP"}
           PlainMethKeys = {"G", "P", "GP"}
-          MaxLen = 3
-          MaxT = 2
-          ServerSet = {"none", "psfirst"}
+          MaxLen = 2
+          MaxT = 3
+          ServerSet = {"none", "rel"}
           CoreLen = 0
           CoreT = 0
           CoreServers = {}
-          Slice = 25
+          Slice = 8
           Seed = 1
-          DesignAll = FALSE
+          DesignAll = TRUE
 INVARIANTS DesignOK Emit
 CHECK_DEADLOCK FALSE
